@@ -423,6 +423,14 @@ CAMPAIGNS['C07'].append(camp(
     'missing key, tuple vs list, key order, big ints, non-string keys): '
     'served from the cache iff the keys are JSON-equal',
     post='tag_all:C07'))
+CAMPAIGNS['C02'].append(camp(
+    'c02-cache-write-faults', 'C02', dict(p_mutate_step=0.4, p_tamper=0.5),
+    'the exception is raised while the cache file is being written: OSError '
+    'at cache open / write / close and torn writes, with and without a '
+    'previous cache file', mode='oserror-sweep',
+    nontrivial=nt_rollback_restored, chunk=6, follow=1, weight=0.5,
+    only_calls=['gzopen_w', 'gzwrite', 'gzclose'],
+    sweep_max={'quick': 12, 'thorough': None}))
 WIDE_RULE = ('wide builds: one statement builds 130-260 outputs (over '
              'foreign files or previous outputs), so that more than 128 files '
              'are moved aside in one build, then the build fails and is '
@@ -499,7 +507,8 @@ def summarize(sc):
     return {
         'profile': sc.get('profile'), 'seed': sc.get('seed'),
         'cache': sc['config'].get('cache_rel'),
-        'init': sc.get('init'),
+        'init': sc.get('init') if len(sc.get('init') or []) <= 12 else
+        sc['init'][:3] + ['... %d entries' % len(sc['init'])],
         'roots': sc['roots'],
         'funcs': {k: v['variants'] for k, v in sorted(sc['funcs'].items())},
         'steps': sc['steps'],
